@@ -198,6 +198,64 @@ def can_sites(P, body):
     return out
 
 
+def _eq_at(body, block, user_term=None):
+    """truth of the previous-author comparison that holds at `block` (through named booleans: `let same = a.eq(b); if same ..`),
+    or None: recognised by one side being a previous-author term or the acting key of the decision"""
+    user = mir.strip(user_term) if user_term is not None else None
+    for atom, truth in body.guard_atoms(block, expand_vars=True):
+        a0 = atom
+        while a0[0] in ("ref", "deref"):
+            a0 = a0[1]
+        if a0[0] == "call" and a0[1].endswith("::eq") and len(a0[2]) == 2 and truth is not None:
+            paths = [body.cpath(a) for a in a0[2]]
+            if any(is_prev_author(p_) for p_ in paths):
+                return truth
+            if user is not None and any(mir.strip(x) == user for x in a0[2]):
+                return truth
+    return None
+
+
+def decision_cases(body, site):
+    """[(right kind, truth of the previous-author comparison or None, block)] for a `can` site, whatever the idiom:
+    literal right at the call (the comparison guards the call), or a right held in a variable (each assignment of the
+    variable is a case, guarded by the comparison at the assignment, or at the call when the assignment is unguarded)"""
+    if site["kind"] != "can":
+        return []
+    raw = body.call_args(site["block"], expand_vars=False)[4]
+    t = strip_refs(raw)
+    while t[0] in ("deref", "ref"):
+        t = strip_refs(t[1])
+    user = site["args"][1]
+    site_eq = _eq_at(body, site["block"], user)
+    lit = right_of(site["args"][4])
+    if t[0] != "var" or len(t) < 3:
+        if lit in ("MutateSelf", "MutateAll"):
+            return [(lit, site_eq, site["block"])]
+        return [(lit or "?", site_eq, site["block"])]
+    out = []
+    for (bi, si, rv, lhs) in body.defs().get(t[2], ()):
+        if si is None or len(lhs) != 1 or body.blocks[bi]["cl"]:
+            continue
+        r = right_of(body.def_term(bi, si, rv, 0))
+        if r is None:
+            continue
+        e = _eq_at(body, bi, user)
+        out.append((r, e if e is not None else site_eq, bi))
+    return out or [(lit or "?", site_eq, site["block"])]
+
+
+def canonical_kinds(body, sites):
+    """{(right, 'different' | 'other')}: the all-rows right must be chosen exactly when the previous author exists and differs"""
+    out = set()
+    for s_ in sites:
+        for r, e, bi in decision_cases(body, s_):
+            out.add((r, "different" if e is False else "other"))
+    return out
+
+
+WANT_KINDS = {("MutateAll", "different"), ("MutateSelf", "other")}
+
+
 def right_var_defs(body, varname):
     """for `let required_right = match .. {..}`: [(right, author_eq truth, block)] per assignment"""
     out = []
